@@ -52,6 +52,12 @@ def c05(tier, seed):
     for y in years:
         crop = rnd.choice(["Cotton", "CottonGDD"]) if y in (1984, 1987, 1988) else rnd.choice(["Cotton", "CottonGDD", "Sorghum", "SorghumGDD", "Maize", "Sunflower", "Soybean"])
         scs.append(L.builtin_scenario(crop, y, irr={"method": 1, "kw": {"SMT": [rnd.choice([20, 20, 30])] * 4, "MaxIrr": rnd.choice([6, 6, 8])}}))
+    # a water table a little BELOW the maximum rooting depth and a dry start (roots expanding through soil between wilting point and the
+    # table-adjusted field capacity)
+    for crop, zmax in (("Tomato", 1.0), ("Wheat", 1.5), ("Potato", 1.5)):
+        for pct in ((25,) if tier != "thorough" else (15, 20, 25, 30, 35)):
+            scs.append(S(crop, rnd.choice(["SandyLoam", "Loam"]), seed=rnd.randrange(10 ** 6), gw={"water_table": "Y", "dates": ["2001/04/20"], "values": [round(zmax + 0.3, 2)]},
+                         iwc={"wc_type": "Pct", "value": [pct]}, irr={"method": 1, "kw": {"SMT": [55] * 4}}))
     # minimum rooting depth / aeration threshold set by the user, with fallow days before the first planting date
     scs.append(S("Maize", "SandyLoam", seed=rnd.randrange(10 ** 6), lead=10, crop_kw={"Zmin": 0.5, "Aer": 12}))
     scs.append(S("Tomato", "Loam", seed=rnd.randrange(10 ** 6), lead=25, off_season=True, crop_kw={"Zmin": 0.45}, seasons=2))
@@ -129,6 +135,8 @@ def c12(tier, seed):
         S("Barley", "Loam", seed=seed + 9, lead=20, seasons=2),
         S("PaddyRice", "Paddy", seed=seed + 10, lead=9, off_season=True, regime="monsoon", iwc={"value": ["FC", "FC"], "depth_layer": [1, 2]}),
         S("Wheat", "SandyLoam", seed=seed + 11, lead=5, crop_kw={"Zmin": 0.15, "Aer": 10}),
+        # scheduled depths above the daily maximum (the cap is applied to the day's application, the schedule stays as given)
+        S("Maize", "SandyLoam", seed=seed + 12, seasons=2, irr={"method": 3, "schedule": [["2001/05/15", 40], ["2001/06/15", 60], ["2002/06/01", 45]], "kw": {"MaxIrr": 25}}),
     ]
     n = 150 if tier == "thorough" else 4
     for i in range(n):
@@ -183,6 +191,8 @@ def c13(tier, seed):
                          regime=rnd.choice(["arid", "warm"]) if crop in L.CAL_CROPS else None,
                          seasons=rnd.choice([1, 2]), off_season=rnd.random() < 0.4, lead=rnd.choice([0, 10]),
                          iwc=rnd.choice([None, {"value": ["WP"]}])))
+    # constant-depth strategy with the depth specified from outside between calls (the documented use: IrrMngt.depth is set before each step)
+    scs.append(S("Sorghum", "Loam", seed=seed + 91, irr={"method": 5, "kw": {"depth": 0, "MaxIrr": 20}, "depth_plan": [[20, 6.0], [45, 0.0], [60, 12.5], [61, 3.0], [90, 30.0]]}))
     # a dated schedule on a management object that served ANOTHER model before (a window of the same length a year earlier; the same window with
     # another schedule is the table's own business): the schedule stays bound BY DATE
     sch2 = [["2001/05/05", 30], ["2001/06/10", 40], ["2001/07/03", 18], ["2002/05/08", 25], ["2002/06/20", 35], ["2002/07/15", 22]]
@@ -223,5 +233,14 @@ def c19(tier, seed):
                      iwc=rnd.choice([{"value": ["FC"] * nl, "depth_layer": list(range(1, nl + 1))}, {"value": ["WP"] * nl, "depth_layer": list(range(1, nl + 1))}])))
     # no table at all: CR = GwIn = 0
     scs.append(S("Maize", "Loam", seed=seed + 7))
+    # the table JUMPS up by several compartments from one day to the next (Constant method, several observations), the day after a storm has
+    # saturated the upper part of the profile: every compartment now under the table must be filled, not only those above the first saturated one
+    import datetime as _dt
+    p0 = _dt.date(2001, 4, 20)
+    for k, (soil, z1, storm) in enumerate([("Loam", 0.32, 120), ("SandyLoam", 0.55, 90), ("ClayLoam", 0.85, 150)] if tier != "thorough" else
+                                          [(so, z, st) for so in ("Loam", "SandyLoam", "ClayLoam", "Sand") for z in (0.32, 0.55, 0.85) for st in (60, 120)]):
+        for day in ((3,) if tier != "thorough" else (3, 60)):
+            scs.append(S("Tomato", soil, seed=rnd.randrange(10 ** 6), gw={"water_table": "Y", "method": "Constant", "dates": [L.dstr(p0), L.dstr(p0 + _dt.timedelta(days=day))], "values": [4.0, z1]},
+                         events=[{"date": L.dstr(p0 + _dt.timedelta(days=day - 1)), "P": storm}]))
     scs += L.hard_cases(rnd, 8)
     return scs
